@@ -92,6 +92,30 @@ def gen_problem(rng, tier):
     return prob
 
 
+def extra_program_problems(rng):
+    """Larger boards for the program correspondence only (nothing is enumerated there): one non-square medium board and two
+    with more than 256 cells (a tall and a wide one), a fifth to a third of the cells black (edges and corners included),
+    numbers read off a random placement of triangles or arbitrary."""
+    from . import _loop
+    return [_gen_large(rng, h, w) for h, w in _loop.big_shapes(rng)]
+
+
+def _gen_large(rng, h, w):
+    n = h * w
+    p_black = rng.choice([0.2, 0.33])
+    pb = [[-1 if rng.random() < p_black else None for _ in range(w)] for _ in range(h)]
+    for (y, x) in ((0, 0), (0, w - 1), (h - 1, 0), (h - 1, w - 1)):
+        if rng.random() < 0.5:
+            pb[y][x] = -1
+    ans = [0 if pb[i // w][i % w] is not None or rng.random() < 0.5 else rng.randint(1, 4) for i in range(n)]
+    show = rng.choice([0.3, 0.6, 1.0])
+    for y in range(h):
+        for x in range(w):
+            if pb[y][x] is not None and rng.random() < show:
+                pb[y][x] = _tri_neighbours(h, w, ans, y, x) if rng.random() < 0.85 else rng.randint(0, 4)
+    return {"height": h, "width": w, "problem": pb}
+
+
 def solve_args(problem):
     return (problem["height"], problem["width"], problem["problem"]), {}
 
